@@ -20,7 +20,7 @@ MIN_COUNTERS = {'quick': {'kills_delivered': 12, 'restarts_checked': 20}, 'thoro
 CASE_TIMEOUT = 600
 NPROC = 8
 RULE = ('each case = (grid: 3x3 or 4x3 base points with list or tuple must-include values, linear or log scale; pool size in {4,8,16}; fault: kill immediately before bookkeeping '
-        'event j of study case c / of a worker\'s j-th log append / of the parent\'s j-th event, or a subset of cases raising on the first run, or no fault) followed by a restart on the same '
+        'event j of study case c / of a worker\'s j-th log append / of the parent\'s j-th event, or a subset of cases raising on the first run, or no fault), optionally a second run that is interrupted again (kill or raising cases), followed by a restart on the same '
         'directory; non-trivial = the fault was actually delivered (kill record written / injected failures executed) and the restart ran; kill points that are never reached are not decisive')
 ASSUMPTIONS = ['the reference result of a case is determined by its grid point (the study function returns its inputs), so the uninterrupted run is known in closed form and verified by the no-fault cases',
                'SIGKILL of the whole process group models the interruption; power-loss style torn writes inside a single file are not modelled (only event boundaries)']
